@@ -801,7 +801,7 @@ func randSrv(r *rng.R) []tcfg {
 		j := r.Below(i + 1)
 		ks[i], ks[j] = ks[j], ks[i]
 	}
-	switch r.Below(4) {
+	switch r.Below(7) {
 	case 0: // drop some transports
 		ks = ks[:r.Below(len(ks)+1)]
 	case 1: // duplicate kinds with different configuration: the first one must win
@@ -840,6 +840,14 @@ func randCase(r *rng.R, malformed bool) kase {
 	rc := rctPool[r.Below(len(rctPool))]
 	if !malformed && r.Below(3) != 0 {
 		rc = rctPool[[]int{0, 3, 5, 6}[r.Below(4)]]
+	}
+	if r.Below(10) < 8 { // mostly a request some transport is meant for
+		if r.Below(4) == 0 {
+			k.method = "GET"
+		} else {
+			k.method = "POST"
+			rc = rctPool[[]int{0, 1, 2, 3, 4, 5, 6}[r.Below(7)]]
+		}
 	}
 	k.rct, k.rctRaw = rc.class, rc.raw
 	k.upgrade = r.Below(12) == 0
